@@ -119,6 +119,20 @@ def rule_allow_incomplete(facts):
         z = nz = None
     else:
         z, nz = sw[0].term.targets[0][1], sw[0].term.otherwise      # z: allow == false
+        # the test may be on a value computed from the option (`let check = !allow`): the edge taken for allow == false is found
+        # by evaluation
+        try:
+            tsw = tm.of_operand(sw[0].term.discr)
+            vals = [pat.eval_term(tsw, lambda q, v=v: v if (q[0] == "field" and q[1] == "allow_incomplete") else (_ for _ in ()).throw(pat.NotEvaluable(q)))
+                    for v in (0, 1)]
+            if vals[0] != 0 and vals[1] == 0:
+                z, nz = nz, z
+            elif not (vals[0] == 0 and vals[1] != 0):
+                z = nz = None
+                r.bad("allow|shape", "the test on allow_incomplete does not separate its two values", pat.where(f, sw[0].idx), "unverifiable")
+        except (pat.NotEvaluable, pat.Overflow):
+            z = nz = None
+            r.bad("allow|shape", "cannot evaluate the test on allow_incomplete", pat.where(f, sw[0].idx), "unverifiable")
     if z is None:
         pass
     elif not (c.dominates(z, proc[0]) or z == proc[0]) or proc[0] in c.reachable_from(nz, avoid=[z]):
